@@ -6,6 +6,7 @@
 package world
 
 import (
+	"bytes"
 	"os"
 	"path/filepath"
 	"github.com/hashicorp/nodeenrollment/storage/file"
@@ -164,6 +165,8 @@ type World struct {
 	Inner    nodeenrollment.Storage
 	Alias    *AliasStorage
 	Rec      *RecStorage            // control/recording handle
+	GoneSrc  map[string]GoneKey
+	lastSrc  map[string]GoneKey
 	Store    nodeenrollment.Storage // what the library is given (Rec behind a plain or NodeIdLoader facade)
 	CertKeys map[string]*CertKey
 	EncKeys  map[string]*EncKey
@@ -562,9 +565,13 @@ func (w *World) BuildInfo(fs FetchSpec) (*types.FetchNodeCredentialsInfo, error)
 		info.WrappingRegistrationFlowInfo = &types.WrappingRegistrationFlowInfo{CertificatePublicKeyPkix: ck.Pkix, Nonce: w.NonceBytes(fs.Nonce)}
 	}
 	if fs.WrapW != "" && fs.WrapW != None {
-		regInfo := &types.WrappingRegistrationFlowInfo{
-			CertificatePublicKeyPkix: w.EnsureCertKey(fs.WrapK).Pkix,
-			Nonce:                    w.NonceBytes(fs.WrapN),
+		// "absent": the sealed info lacks that field altogether
+		regInfo := &types.WrappingRegistrationFlowInfo{}
+		if fs.WrapK != "absent" {
+			regInfo.CertificatePublicKeyPkix = w.EnsureCertKey(fs.WrapK).Pkix
+		}
+		if fs.WrapN != "absent" {
+			regInfo.Nonce = w.NonceBytes(fs.WrapN)
 		}
 		b, err := proto.Marshal(regInfo)
 		if err != nil {
@@ -615,6 +622,12 @@ func (w *World) BuildFetch(fs FetchSpec) (*types.FetchNodeCredentialsRequest, er
 		if err != nil {
 			return nil, err
 		}
+		// an intermediate whose record has been removed still holds the keys it had: it re-wraps with those
+		if fs.RewrapBy == fs.RewrapKey && !w.recordPresent(fs.RewrapKey) {
+			if g, ok := w.GoneSrc[fs.RewrapKey]; ok {
+				src = g.Src
+			}
+		}
 		ct, err := nodeenrollment.EncryptMessage(w.Ctx, regInfo, src)
 		if err != nil {
 			return nil, err
@@ -623,6 +636,51 @@ func (w *World) BuildFetch(fs FetchSpec) (*types.FetchNodeCredentialsRequest, er
 		req.RewrappingKeyId = w.EnsureCertKey(fs.RewrapBy).KeyId
 	}
 	return req, nil
+}
+
+// GoneKey is the node-side view of the key shared with a record that has since been removed or replaced.
+type GoneKey struct {
+	Src     *types.NodeCredentials
+	SrvPriv []byte
+	Enc     string
+}
+
+func (w *World) recordPresent(rec string) bool {
+	if rec == "rand" || rec == None || rec == "" {
+		return false
+	}
+	return w.Inner.Load(w.Ctx, &types.NodeInformation{Id: w.EnsureCertKey(rec).KeyId}) == nil
+}
+
+// ObserveKeys remembers, per certificate key, the node-side key source of its present record; when the record is later
+// removed or given another server key, the remembered one becomes the key's "gone" source.
+func (w *World) ObserveKeys(keys []string) {
+	if w.GoneSrc == nil {
+		w.GoneSrc, w.lastSrc = map[string]GoneKey{}, map[string]GoneKey{}
+	}
+	for _, k := range keys {
+		ck := w.EnsureCertKey(k)
+		ni, err := types.LoadNodeInformation(w.Ctx, w.Inner, ck.KeyId, w.StorageOpts()...)
+		last, had := w.lastSrc[k]
+		if err != nil || len(ni.ServerEncryptionPrivateKeyBytes) == 0 {
+			if had && !w.recordPresent(k) {
+				w.GoneSrc[k] = last
+				delete(w.lastSrc, k)
+			}
+			continue
+		}
+		if had && bytes.Equal(last.SrvPriv, ni.ServerEncryptionPrivateKeyBytes) {
+			continue
+		}
+		src, serr := w.NodeSideKeySource(k)
+		if serr != nil || w.EncName(ni.EncryptionPublicKeyBytes) == "" {
+			continue
+		}
+		if had {
+			w.GoneSrc[k] = last
+		}
+		w.lastSrc[k] = GoneKey{Src: src, SrvPriv: append([]byte(nil), ni.ServerEncryptionPrivateKeyBytes...), Enc: w.EncName(ni.EncryptionPublicKeyBytes)}
+	}
 }
 
 // NodeSideKeySource returns the node-side view (a NodeCredentials) of the key
